@@ -433,7 +433,19 @@ def load_findings():
 # the check run
 
 
+def jsonable(o):
+    if isinstance(o, dict):
+        return {(k if isinstance(k, (str, int, float, bool)) or k is None else repr(k)): jsonable(v)
+                for k, v in o.items()}
+    if isinstance(o, (list, tuple, set, frozenset)):
+        return [jsonable(x) for x in (sorted(o, key=repr) if isinstance(o, (set, frozenset)) else o)]
+    if isinstance(o, (str, int, float, bool)) or o is None:
+        return o
+    return repr(o)
+
+
 def write_json(path, obj):
+    obj = jsonable(obj)
     os.makedirs(os.path.dirname(path), exist_ok=True)
     tmp = path + ".tmp%d" % os.getpid()
     with open(tmp, "w") as f:
